@@ -96,7 +96,7 @@ MIN_COUNTERS = {  # about half of what seed 0 observes
               "ds_roundtrips_hdf_node": 85, "problem_roundtrips": 55, "problem_solutions_compared": 35,
               "problem_tolerances_compared": 55, "problem_function_descriptions_compared": 195,
               "problem_backup_exports": 300, "cache_instances_compared": 96, "cache_continued_after_reopen": 32,
-              "directed_cases": 11},
+              "directed_cases": 25},
     "thorough": {"db_histories": 3600, "db_exports_append": 30000, "db_exports_full": 4500,
                  "db_appends_to_second_node_of_same_file": 6000, "db_appends_to_second_file": 9000,
                  "db_histories_with_several_append_targets": 1800,
@@ -107,8 +107,15 @@ MIN_COUNTERS = {  # about half of what seed 0 observes
                  "ds_roundtrips_hdf_node": 800, "problem_roundtrips": 550, "problem_solutions_compared": 350,
                  "problem_tolerances_compared": 550, "problem_function_descriptions_compared": 1900,
                  "problem_backup_exports": 3000, "cache_instances_compared": 960, "cache_continued_after_reopen": 320,
-                 "directed_cases": 11},
+                 "directed_cases": 25},
 }
+# every SciPy sparse container must have been written, re-opened and compared by dense value (half of seed 0)
+for _tier, _each, _sq, _rect in (("quick", 45, 180, 200), ("thorough", 800, 3000, 3500)):
+    MIN_COUNTERS[_tier].update({f"cache_reopened_jac_blocks_{_f}_{_fl}": _each
+                                for _f in ("csr", "csc", "coo", "lil", "dia", "bsr", "dok")
+                                for _fl in ("array", "matrix")})
+    MIN_COUNTERS[_tier].update(cache_reopened_jac_blocks_dense=_each, cache_sparse_blocks_square=_sq,
+                               cache_sparse_blocks_rectangular=_rect)
 SHARD_TIMEOUT = {"quick": 400, "thorough": 3000}
 
 SIZES = {
@@ -1297,11 +1304,34 @@ def run_problem_case(case, rep, scratch):
 
 
 # =========================================================================== HDF5 cache
+SPARSE_FORMATS = ["csr", "csc", "coo", "lil", "dia", "bsr", "dok"]
+SPARSE_CONTAINERS = [f"{f}_{flavour}" for f in SPARSE_FORMATS for flavour in ("array", "matrix")]
+
+
+def make_block(values, container):
+    """A Jacobian block in the requested container (None: dense ndarray)."""
+    dense = np.array(values, dtype=float)
+    if not container:
+        return dense
+    import scipy.sparse
+
+    return getattr(scipy.sparse, container)(dense)
+
+
+def gen_block(rng, rows, cols):
+    """A block without symmetry and with explicit zeros (so that a transposed or re-ordered reload shows)."""
+    m = [[rnd_number(rng) * float(rng.random() < 0.7) for _ in range(cols)] for _ in range(rows)]
+    m[0][cols - 1] = 1.0 + abs(rnd_number(rng))
+    if rows > 1:
+        m[rows - 1][0] = 0.0
+    return m
+
+
 def gen_cache_case(rng):
     n_in = int(rng.integers(2, 15))
     inputs = []
     for i in range(n_in):
-        d = {"x": {"dtype": "float", "v": [rnd_number(rng) for _ in range(int(rng.integers(1, 4)))]}}
+        d = {"x": {"dtype": "float", "v": [rnd_number(rng) for _ in range(int(rng.integers(1, 5)))]}}
         if rng.random() < 0.5:
             d["n"] = {"dtype": "int", "v": [int(v) for v in rng.integers(-5, 5, size=2)]}
         if rng.random() < 0.2:
@@ -1318,8 +1348,18 @@ def gen_cache_case(rng):
             ops.append({"op": "out", "i": i, "data": outs})
         else:
             nx = len(inputs[i]["x"]["v"])
-            ops.append({"op": "jac", "i": i, "sparse": bool(rng.random() < 0.3),
-                        "data": {"y": {"x": [[rnd_number(rng) * (rng.random() < 0.7) for _ in range(nx)] for _ in range(2)]}}})
+
+            def a_container():
+                return None if rng.random() < 0.2 else SPARSE_CONTAINERS[int(rng.integers(len(SPARSE_CONTAINERS)))]
+
+            # square (non-symmetric) or rectangular blocks, each in its own container
+            rows = nx if rng.random() < 0.5 else int(rng.integers(1, 5))
+            data = {"y": {"x": gen_block(rng, rows, nx)}}
+            containers = {"y": {"x": a_container()}}
+            if rng.random() < 0.5:
+                data["zz"] = {"x": gen_block(rng, nx if rng.random() < 0.5 else 2, nx)}
+                containers["zz"] = {"x": a_container()}
+            ops.append({"op": "jac", "i": i, "data": data, "containers": containers})
     return {"kind": "cache", "node": ["node", "a/b", "n_1"][int(rng.integers(3))], "inputs": inputs, "ops": ops}
 
 
@@ -1345,12 +1385,12 @@ def diff_mapping(exp, got):
 
 
 def run_cache_case(case, rep, scratch):
-    from scipy.sparse import csr_array
-
     from gemseo.caches.hdf5_cache import HDF5Cache
 
     rep.case(("cache", case["node"], len(case["inputs"]), "".join(o["op"][0] for o in case["ops"]),
-              tuple(sorted({k for d in case["inputs"] for k in d}))), True)
+              tuple(sorted({k for d in case["inputs"] for k in d})),
+              tuple(sorted({str(c) for o in case["ops"] for r in (o.get("containers") or {}).values() for c in r.values()}))),
+             True)
     rep.count("cache_cases")
     _counter[0] += 1
     workdir = os.path.join(scratch, f"c11_cache_{os.getpid()}_{_counter[0]}")
@@ -1363,8 +1403,16 @@ def run_cache_case(case, rep, scratch):
         for m in model:
             if m[0] == i:
                 return m
-        model.append([i, None, None])
+        model.append([i, None, None, {}])
         return model[-1]
+
+    def container_of(m, d):
+        """The container of the first differing Jacobian block (for the signature)."""
+        for out, row in (d or {}).items():
+            if isinstance(row, dict):
+                for inp in row:
+                    return (m[3].get(out) or {}).get(inp) or "dense"
+        return "unknown"
 
     def inputs_of(i):
         return {k: _arr(d) for k, d in case["inputs"][i].items()}
@@ -1388,9 +1436,14 @@ def run_cache_case(case, rep, scratch):
                                   ("jacobian", m[2] or {}, e.jacobian or {})):
                 d = diff_mapping(exp, got)
                 if d:
-                    rep.violation(f"C11:cache:{label}:{grp}-differ", "same entries in the same order", case,
+                    feat = f":{container_of(m, d)}" if grp == "jacobian" else ""
+                    rep.violation(f"C11:cache:{label}:{grp}-differ{feat}", "same entries in the same order", case,
                                   observed=d, expected={"position": pos})
                     return
+            if label != "first-instance":
+                for row in m[3].values():
+                    for cont in row.values():
+                        rep.count(f"cache_reopened_jac_blocks_{cont or 'dense'}")
         # look-ups
         for m in model:
             e = cache[inputs_of(m[0])]
@@ -1410,11 +1463,19 @@ def run_cache_case(case, rep, scratch):
                 if m[1] is None:
                     m[1] = data
             else:
-                jac = {o: {i_: (csr_array(np.array(v)) if op["sparse"] else np.array(v)) for i_, v in row.items()}
-                       for o, row in op["data"].items()}
+                conts = op.get("containers") or {o: {i_: ("csr_array" if op.get("sparse") else None) for i_ in row}
+                                                 for o, row in op["data"].items()}
+                jac = {o: {i_: make_block(v, conts[o][i_]) for i_, v in row.items()} for o, row in op["data"].items()}
                 cache.cache_jacobian(inputs_of(op["i"]), jac)
                 if m[2] is None:
-                    m[2] = jac
+                    # the model keeps dense copies made by the harness, not the objects handed to gemseo
+                    m[2] = {o: {i_: np.array(v, dtype=float) for i_, v in row.items()} for o, row in op["data"].items()}
+                    m[3] = conts
+                    for o, row in m[2].items():
+                        for i_, blk in row.items():
+                            if conts[o][i_]:
+                                rep.count("cache_sparse_blocks_square" if blk.shape[0] == blk.shape[1] > 1
+                                          else "cache_sparse_blocks_rectangular")
         census(rep, scratch, "HDF5Cache.cache_outputs", case)
         check(cache, "first-instance")
         check(HDF5Cache(hdf_file_path=path, hdf_node_path=node), "second-instance-same-file")
@@ -1501,6 +1562,22 @@ def directed_db_cases():
     return out
 
 
+def directed_cache_cases():
+    """One small cache history per sparse container: square non-symmetric and rectangular blocks."""
+    x = lambda i: {"x": {"dtype": "float", "v": [i + 0.25, -1.5, 2.0]}}  # noqa: E731
+    sq = [[1.0, 2.0, 3.0], [0.0, 4.0, 5.0], [0.0, 0.0, 6.0]]
+    rect = [[0.0, 7.0, 8.0], [9.0, 0.0, 0.0]]
+    row = [[0.0, 0.0, 10.0]]
+    out = []
+    for cont in SPARSE_CONTAINERS:
+        out.append({"kind": "cache", "node": "node", "inputs": [x(0), x(1)], "ops": [
+            {"op": "jac", "i": 0, "data": {"y": {"x": sq}, "zz": {"x": rect}},
+             "containers": {"y": {"x": cont}, "zz": {"x": cont}}},
+            {"op": "out", "i": 0, "data": {"y": {"dtype": "float", "v": [1.0, 2.0, 3.0]}}},
+            {"op": "jac", "i": 1, "data": {"y": {"x": row}}, "containers": {"y": {"x": cont}}}]})
+    return out
+
+
 def directed_space_cases():
     inf = None
     p19 = [{"name": "alpha", "size": 2, "type": "float", "lb": [inf, 0.1234567890123456], "ub": [1 / 3, inf],
@@ -1564,6 +1641,9 @@ def run_shard(spec, rep):
             rep.count("directed_cases")
         for case in directed_space_cases():
             run_space_case(case, rep, scratch)
+            rep.count("directed_cases")
+        for case in directed_cache_cases():
+            run_cache_case(case, rep, scratch)
             rep.count("directed_cases")
         observe_outside_statement(rep, scratch)
     for i in range(spec["n_db"]):
